@@ -14,7 +14,7 @@ nfix = subprocess.check_output(["git", "-C", "/repo", "log", "--format=%s"]).dec
 nfix = sum(1 for l in nfix if l.startswith("fix:"))
 metas = [json.load(open(m)) for m in glob.glob(os.path.join(V, "seeded", "*", "meta.json"))]
 subst = {"@@NKNOWN@@": str(len(kf["findings"])), "@@NFIX@@": str(nfix), "@@FIXCOUNTS@@": ", ".join("%s %d" % kv for kv in sorted(cnt.items())),
-         "@@NSEED@@": str(len(metas)), "@@NSTR@@": str(sum(1 for m in metas if m["evaluation"]["caught"] == "after-strengthening"))}
+         "@@NSEED@@": str(len(metas)), "@@NNO@@": str(sum(1 for m in metas if m["evaluation"]["caught"] == "no")), "@@NSTR@@": str(sum(1 for m in metas if m["evaluation"]["caught"] == "after-strengthening"))}
 out = [functools.reduce(lambda t, kv: t.replace(*kv), subst.items(), x) for x in out]
 text = re.sub(r'(-{80,}\n)\n+(-{80,}\n)', r'\1', "\n".join(out))
 open(os.path.join(os.path.dirname(d), "DESIGN.md"), "w").write(text)
